@@ -110,7 +110,10 @@ def check(c, ctx):
     nlocal = 0
     try:
         # a long-lived function defined before the first snapshot: it calls the modelled functions by name on every use
-        r = ctx.request({"cmd": "eval", "id": eid, "script": "def zz_long(n, a) { return eval(n)(a) }\n0"})
+        # ... and one caller per modelled name whose body names the function directly: these syntax trees live from before the first
+        # snapshot to the end, so whatever they cached about the function table must survive every set_state
+        direct = "\n".join("def zz_d_%s(a) { return %s(a) }" % (n, n) for n in SNAMES + CNAMES)
+        r = ctx.request({"cmd": "eval", "id": eid, "script": "def zz_long(n, a) { return eval(n)(a) }\n" + direct + "\n0"})
         if "exc" in r:
             raise Violation("setup failed: %s" % r["exc"], {})
         used_rec = []
@@ -217,6 +220,8 @@ def check(c, ctx):
             pr = ctx.request({"cmd": "c15", "id": eid, "op": "probe", "exists": SNAMES + CNAMES + CLASSES})
             want_over = {n: len(v) for n, v in M.funcs.items() if v}
             want_over["zz_long"] = 1      # defined before the first snapshot: present in every state
+            for n_ in SNAMES + CNAMES:
+                want_over["zz_d_" + n_] = 1
             for cl in M.classes:
                 want_over[cl] = 1
                 want_over["zz_m_" + cl] = 1
@@ -250,7 +255,7 @@ def check(c, ctx):
                     v = probe_expect(M.funcs.get(n, {}), arg)
                     if isinstance(v, tuple):
                         v = (1 + v[1]) if arg == "int" else (2 + v[1])
-                    script = ("zz_long(\"%s\", %s)" % (n, lit)) if via_long else ("%s(%s)" % (n, lit))
+                    script = ("zz_long(\"%s\", %s)" % (n, lit)) if via_long else ("zz_d_%s(%s)" % (n, lit)) if k % 2 else ("%s(%s)" % (n, lit))
                     r2 = ctx.request({"cmd": "eval", "id": eid, "script": script})
                     got = None if "exc" in r2 else r2["res"]["r"]
                     want = None if v is None else "i32:%d" % v
